@@ -733,6 +733,14 @@ func specIsBoolValue(o Object, b bool) bool {
 	return ok && bool(v) == b
 }
 
+// specArrayOf: o is an array of the n values snap[from], …, snap[from+n-1], in that order.
+func specArrayOf(o Object, snap []Object, from, n int) bool {
+	a, ok := o.(Array)
+	return ok && len(a) == n && verifrt.Forall(func(k int) bool {
+		return !(0 <= k && k < n) || a[k] == snap[from+k]
+	})
+}
+
 // specIsBoxed: the slot holds a captured (boxed) local.
 func specIsBoxed(o Object) bool {
 	_, ok := o.(*ObjectPtr)
